@@ -4,6 +4,8 @@ import (
 	"bytes"
 	"fmt"
 	"math/rand"
+	"os"
+	"os/exec"
 	"sync"
 
 	"github.com/akalin/gopar/gf2p16"
@@ -100,6 +102,9 @@ func (c *c09) Cases(tier string, seed int64) []core.Case {
 			cs = append(cs, rc)
 		}
 	}
+	// the exported kernels as the first field operation of fresh processes
+	// started with different GOMAXPROCS values
+	cs = append(cs, core.MkCase("fresh-process-gomaxprocs", c09Params{Mode: "fresh", Path: "exported-ssse3-on", Seed: r.Int63()}))
 	// align
 	for _, p := range c09Paths {
 		cs = append(cs, core.MkCase(fmt.Sprintf("align-%s", p), c09Params{Mode: "align", Path: p, Full: tier == "thorough", Lens: []int{2, 30, 32, 34, 62, 64, 66, 96, 130, 318}, Seed: r.Int63()}))
@@ -163,6 +168,29 @@ func (c *c09) Run(cs core.Case) core.Result {
 		if !gf2p16.VerifHasSSSE3() && p.Path == "ssse3" {
 			// hasSSSE3 reflects cpuid at init (before any override in this process).
 		}
+	}
+	if p.Mode == "fresh" {
+		exe := os.Getenv("VW_FRESH_EXE")
+		if exe == "" {
+			r.Inconclusive("vwfresh not built")
+			return r.Done()
+		}
+		for _, gmp := range []string{"", "1", "2", "3", "5", "6", "7", "12", "16"} {
+			for _, op := range []string{"mulslice", "muladdslice"} {
+				cmd := exec.Command(exe, op, fmt.Sprint(p.Seed))
+				if gmp != "" {
+					cmd.Env = append(os.Environ(), "GOMAXPROCS="+gmp)
+				}
+				out, err := cmd.CombinedOutput()
+				r.Count("fresh_processes", 1)
+				if err != nil {
+					r.Violate("wrong-product-in-fresh-process|"+op, "%s in a fresh process started with GOMAXPROCS=%q: %v\n%s", op, gmp, err, tailStr(string(out), 600))
+				}
+				r.Key("fresh|%s|%s", op, gmp)
+			}
+		}
+		r.Sample(map[string]interface{}{"mode": "fresh", "gomaxprocs": []string{"default", "1", "2", "3", "5", "6", "7", "12", "16"}})
+		return r.Done()
 	}
 	hadSSSE3 := gf2p16.VerifHasSSSE3()
 	defer gf2p16.VerifSetSSSE3(hadSSSE3)
